@@ -1,4 +1,4 @@
-(** C11 model of internal/reporter/reporter.go (as it is after fix 980af37), json.go and the skeleton of
+(** C11 model of internal/reporter/reporter.go (as it is after fixes 980af37, 1588b37 and its follow-up), json.go and the skeleton of
     console.go:  Report, isEqual, Summary.Report/hasReport, SortReports (diagnostic sort + 8-key stable sort
     incl. cmpDiagnostics), Dedup, CountBySeverity, JSON / console rendering.
 
@@ -9,8 +9,10 @@ From PintV Require Import Common.Bytes Common.Sorting Gen.Tables Model.Severity.
 Import ListNotations.
 Local Open Scope Z_scope.
 
-(** diags.Diagnostic.  [dg_extra] stands for the fields no comparison reads (Pos, Kind): the harness gives
-    every diagnostic of a report a distinct number, so the rendered order of diagnostics is observable. *)
+(** diags.Diagnostic.  [dg_extra] stands for [Pos]: the harness numbers the distinct PositionRanges values of a
+    stream by their rank under the comparison cmpDiags uses (slices.CompareFunc by Line, FirstColumn, LastColumn),
+    so equal numbers = equal Pos and N.compare = that comparison; the rendered order of diagnostics is observable
+    through it. *)
 Record diag := { dg_msg : string; dg_first : Z; dg_last : Z; dg_extra : N }.
 
 (** reporter.Report.  [r_rule] = class of [Report.Rule] under [parser.Rule.IsSame] (an equality of projections:
@@ -24,8 +26,10 @@ Record report := {
 (* ---------------------------------------------------------------------------------------------- *)
 (** * Equality *)
 
+(** the test inside isSameDiagnostics (since 1588b37 it also requires slices.Equal(a.Pos, b.Pos)) *)
 Definition diag_eqb (a b : diag) : bool :=
-  (dg_first a =? dg_first b) && (dg_last a =? dg_last b) && String.eqb (dg_msg a) (dg_msg b).
+  (dg_first a =? dg_first b) && (dg_last a =? dg_last b) && String.eqb (dg_msg a) (dg_msg b) &&
+  N.eqb (dg_extra a) (dg_extra b).
 
 (** isSameDiagnostics(sa, sb) *)
 Definition is_same_diags (sa sb : list diag) : bool :=
@@ -72,14 +76,20 @@ Definition lex {A} (c1 c2 : cmpf A) : cmpf A := fun a b => match c1 a b with Eq 
 Definition on {A B} (f : A -> B) (c : cmpf B) : cmpf A := fun a b => c (f a) (f b).
 Definition zflip : cmpf Z := fun a b => Z.compare b a.
 
-(** cmpDiags / the comparator of the per-report diagnostic sort:
-    cmp.Or(Compare(b.FirstColumn, a.FirstColumn), Compare(a.LastColumn, b.LastColumn), Compare(a.Message, b.Message)) *)
-Definition dcmp : cmpf diag := lex (on dg_first zflip) (lex (on dg_last Z.compare) (on dg_msg String.compare)).
+(** cmpDiags, the comparator of the per-report diagnostic sort and of cmpDiagnostics:
+    cmp.Or(Compare(b.FirstColumn, a.FirstColumn), Compare(a.LastColumn, b.LastColumn), Compare(a.Message, b.Message),
+           slices.CompareFunc(a.Pos, b.Pos, ..)) *)
+Definition dcmp : cmpf diag :=
+  lex (on dg_first zflip) (lex (on dg_last Z.compare) (lex (on dg_msg String.compare) (on dg_extra N.compare))).
 Definition diag_lt (a b : diag) : bool := match dcmp a b with Lt => true | _ => false end.
 
 (** slices.SortStableFunc(diagnostics, cmpDiags).  [dcmp] is a total preorder, for which every stable sort
     returns the same list; the insertion sort (= Go's algorithm up to 20 elements) is used for all lengths. *)
 Definition sort_diags (l : list diag) : list diag := isort diag_lt l.
+(** the same call inside cmpDiagnostics (in place, on the slice the stored report shares): on the already sorted
+    diagnostics of a normalised report it changes nothing, which the correspondence observes through the final
+    diagnostic order of every report *)
+Definition fsort (l : list diag) : list diag := isort diag_lt l.
 
 (** first loop of SortReports *)
 Definition norm (r : report) : report :=
@@ -93,7 +103,7 @@ Definition k7 : cmpf report :=
   lex (on r_path String.compare) (lex (on r_lfirst Z.compare) (lex (on r_llast Z.compare) (lex (on r_sev Z.compare)
   (lex (on r_reporter String.compare) (lex (on r_summary String.compare) (on r_details String.compare)))))).
 
-(** cmpDiagnostics(sa, sb) < 0.  The Go function re-sorts both (already sorted) slices first: a no-op. *)
+(** cmpDiagnostics(sa, sb) < 0 on the slices as they are after its two SortStableFunc(.., cmpDiags) calls *)
 Definition cmp_diagnostics_neg (sa sb : list diag) : bool :=
   match sa, sb with
   | [], _ => true               (* len(sa)==0 -> -1, also when sb is empty *)
@@ -106,13 +116,13 @@ Definition report_lt (a b : report) : bool :=
   match k7 a b with
   | Lt => true
   | Gt => false
-  | Eq => cmp_diagnostics_neg (r_diags a) (r_diags b)
+  | Eq => cmp_diagnostics_neg (fsort (r_diags a)) (fsort (r_diags b))
   end.
 
-(** The sort key as data: seven fields + the first diagnostic (after the diagnostic sort). *)
+(** The sort key as data: seven fields + the first diagnostic under cmpDiags (columns, message, Pos). *)
 Definition sort_key (r : report) :=
   (r_path r, r_lfirst r, r_llast r, r_sev r, r_reporter r, r_summary r, r_details r,
-   match r_diags r with [] => None | d :: _ => Some (dg_first d, dg_last d, dg_msg d) end).
+   match fsort (r_diags r) with [] => None | d :: _ => Some (dg_first d, dg_last d, dg_msg d, dg_extra d) end).
 
 Definition odcmp : cmpf (option diag) := fun a b =>
   match a, b with
@@ -122,7 +132,7 @@ Definition odcmp : cmpf (option diag) := fun a b =>
   | Some x, Some y => dcmp x y
   end.
 (** the genuine order the comparator implements when no two compared reports tie *)
-Definition kcmp : cmpf report := lex k7 (on (fun r => hd_error (r_diags r)) odcmp).
+Definition kcmp : cmpf report := lex k7 (on (fun r => hd_error (fsort (r_diags r))) odcmp).
 
 (** Summary.SortReports *)
 Definition sort_reports (l : list report) : list report := go_stable_sort report_lt (map norm l).
@@ -233,7 +243,7 @@ Definition exit_status_ci (failOn : Z) (stream : list report) : bool :=
 (* ---------------------------------------------------------------------------------------------- *)
 (** * The monitored hypotheses, as executable checks *)
 
-Definition diag_full_eqb (a b : diag) : bool := diag_eqb a b && N.eqb (dg_extra a) (dg_extra b).
+Definition diag_full_eqb (a b : diag) : bool := diag_eqb a b.
 
 Fixpoint list_eqb {A} (eqb : A -> A -> bool) (l1 l2 : list A) : bool :=
   match l1, l2 with
